@@ -185,7 +185,68 @@ def r6(F, rep):
         rep.add("C06-R6", "siblings-agree", "", "both siblings use the same gates", a == b, func="colvarbias_restraint_*_moving::update_acc_work")
 
 
+def _factors(n, f, res, num, den, inv=False):
+    n = X.strip(n)
+    if n["k"] == "DeclRefExpr" and res and n.get("d") in res:
+        return _factors(res[n["d"]], f, res, num, den, inv)
+    if n["k"] == "UnaryOperator" and n.get("op") == "-":
+        (den if inv else num).append("-1")
+        return _factors(X.kids(n)[0], f, res, num, den, inv)
+    if n["k"] == "BinaryOperator" and n["op"] in ("*", "/"):
+        a, b = X.kids(n)
+        _factors(a, f, res, num, den, inv)
+        _factors(b, f, res, num, den, inv if n["op"] == "*" else not inv)
+        return
+    if n["k"] == "CXXOperatorCallExpr" and n.get("op") in ("*", "/") and len(X.call_args(n)) == 2:
+        a, b = X.call_args(n)
+        _factors(a, f, res, num, den, inv)
+        _factors(b, f, res, num, den, inv if n["op"] == "*" else not inv)
+        return
+    if n["k"] in ("CXXConstructExpr", "CXXFunctionalCastExpr", "CXXTemporaryObjectExpr", "ParenExpr") and len([c for c in X.kids(n) if c["k"] != "CXXDefaultArgExpr"]) == 1:
+        return _factors([c for c in X.kids(n) if c["k"] != "CXXDefaultArgExpr"][0], f, res, num, den, inv)
+    (den if inv else num).append(X.re_strip(X.key(n, f, res)))
+
+
+def r7(F, rep):
+    rep.rule("C06-R7", "the work integrand is the potential without the force constant: for every restraint class, the factors "
+                       "(numerator and denominator, const locals resolved) of the value returned by d_restraint_potential_dk() "
+                       "are those of restraint_potential() minus the force constant -- a per-wall constant, a width or a "
+                       "displacement that appears in one appears in the other")
+    n = 0
+    for cls in sorted(F.subclasses("colvarbias_restraint", strict=True)):
+        pot = F.find_method(cls, "restraint_potential")
+        duk = F.find_method(cls, "d_restraint_potential_dk")
+        if not pot or not duk or pot[0].cls != cls or duk[0].cls != cls:
+            continue
+        out = {}
+        for nm, g in (("U", pot[0]), ("dU/dk", duk[0])):
+            rets = [r for r in g.walk() if r["k"] == "ReturnStmt" and X.kids(r)]
+            if len(rets) != 1:
+                out = None
+                break
+            num, den = [], []
+            _factors(X.kids(rets[0])[0], g, X.const_locals(g), num, den)
+            num = [x for x in num if x not in ("1", "1.0")]
+            den = [x for x in den if x not in ("1", "1.0")]
+            out[nm] = (sorted(num), sorted(den))
+        if out is None:
+            continue
+        n += 1
+        un, ud = out["U"]
+        dn, dd = out["dU/dk"]
+        un2 = list(un)
+        had_k = "this.force_k" in un2
+        if had_k:
+            un2.remove("this.force_k")
+        ok = had_k and sorted(un2) == sorted(dn) and ud == dd
+        rep.add("C06-R7", "%s|dU/dk" % cls, duk[0].loc(), "%s: U = %s / %s ; dU/dk = %s / %s" % (cls, un, ud or ["1"], dn, dd or ["1"]), ok,
+                detail="the accumulated work W = sum dU/dk dk written to the trajectory and the state is not the work of the potential that is applied", func=cls)
+    if n < 3:
+        raise AnalysisBroken("C06-R7: only %d restraint classes with potential and dU/dk found" % n)
+
+
 def run(F, rep, tier):
+    r7(F, rep)
     r1(F, rep)
     r2(F, rep)
     r3(F, rep)
